@@ -454,6 +454,7 @@ func (f *FCFG) edgeEntails(b *cfg.Block, k int, cls func(e ast.Expr) (string, bo
 		v := map[string]bool{}
 		for i, n := range names {
 			v[n] = mask&(1<<i) != 0
+			v["$has:"+n] = true // lets a goal tell "atom is false" from "atom does not occur in this function"
 		}
 		holds := eval(cond, v)
 		if (k == 0) != holds {
